@@ -6,7 +6,7 @@ from lib import *
 from lib import ABORTS
 
 FAMS_QUICK = ["rw", "nest", "plain", "rec", "strictx", "alias"]
-FAMS_C01 = FAMS_QUICK + ["diam", "ttu2", "cyc", "ord"]
+FAMS_C01 = FAMS_QUICK + ["diam", "ttu2", "cyc", "ord", "ssq"]
 
 # tier -> per family TLC constants
 TIERS = {
@@ -329,6 +329,20 @@ def c02(tier):
     if not hung[0]:
         import p_reconf
         p_reconf.reconf(ck, binary, tier, "C02")
+        # the per-request depth belongs to ITS request: checks of one tuple at every depth 1..8, released together, must each answer
+        # what they answer alone (the stored state makes the answers of these queries depend on the depth)
+        rw = defs["rw"]
+        rounds = 24 if tier == "quick" else 160
+        dq = [q for q in rw["Q"] if q[2] in ("v", "both", "viapar", "either")]
+        cin = {"def": rw, "states": [list(range(1, len(rw["U"]) + 1))], "queries": dq, "rounds": rounds, "par": 32, "only": "depth"}
+        crecs = [x for x in run_harness(binary, "conc", cin, shards=8) if "round" in x]
+        if len(crecs) < rounds:
+            raise Inconclusive("only %d of %d concurrent depth rounds ran" % (len(crecs), rounds))
+        for x in crecs:
+            ck.evaluations += x["requests"]
+            for d in x["diffs"] or []:
+                ck.violation("a check answered differently when checks of the same relationship with other max-depth values were in flight", dict(d, round=x["round"]))
+        ck.extra["concurrent_depth_rounds"] = len(crecs)
     ck.extra["clamp_comparisons"] = clamp_cases
     ck.extra["batch_entry_comparisons"] = batch_cmp
     ck.rule = ("cases of CheckCases.tla at every depth 1..%d and width, plus out-of-range request depths and a second "
